@@ -1,5 +1,222 @@
+import OsmVerif.Lemmas.Geo
 import OsmVerif.Model.Convert
+/-!
+# C16 — multipolygon assembly: every piece used once, glued at shared points, nothing lost or invented
+
+Theorems about `Model.Geo` / `Model.Convert` (hand-written models of internal/mputil and
+osmgeojson/build_polygon.go, tied to the code by the differential stream through
+`osmgeojson.Convert` and by a ground-truth ring oracle over all cut/reverse/order choices of small
+instances). Segments enter `Join` untrimmed (`line = full`, the ghost field).
+-/
 namespace OsmVerif.Props.C16
-open OsmVerif.Model.Geo
-theorem compact_nil : compact [] = [] := rfl
+open OsmVerif.Model.Geo OsmVerif.Model.Convert
+
+/-- segments as `buildPolygon`, `buildRouteLineString` and `Group` hand them to `Join` -/
+def FreshInput (segs : List Seg) : Prop := ∀ s ∈ segs, s.line = s.full
+
+theorem compact_fresh (segs : List Seg) (h : FreshInput segs) : ∀ s ∈ compact segs, Fresh s := by
+  intro s hs
+  have := List.mem_filter.mp hs
+  exact ⟨h s this.1, by have := this.2; simp at this; omega⟩
+
+/-- **every input segment appears in exactly one output, possibly reversed** (`norm` forgets direction
+    and trimming): for every list of member lines, any size, any order -/
+theorem join_partitions_input (segs : List Seg) (h : FreshInput segs) :
+    (((join segs).flatten).map norm).Perm ((compact segs).map norm) := by
+  unfold join
+  simpa using (joinAux_spec (compact segs).length (compact segs) [] (Nat.le_refl _) (compact_fresh segs h)
+    (by intro ms hms; cases hms)).1
+
+/-- **pieces are joined only at shared end points, and no coordinate is lost, duplicated or invented**:
+    in every output group all pieces are non-empty and the edges (consecutive point pairs) of its
+    line string are exactly the edges of its members' complete lines -/
+theorem join_preserves_edges (segs : List Seg) (h : FreshInput segs) :
+    ∀ ms ∈ join segs, Chain ms := by
+  unfold join
+  exact (joinAux_spec (compact segs).length (compact segs) [] (Nat.le_refl _) (compact_fresh segs h)
+    (by intro ms hms; cases hms)).2
+
+/-- the `reversed` flag records exactly whether a piece was turned around relative to how it entered -/
+theorem rev_flag (s : Seg) : s.rev.reversed = !s.reversed ∧ s.rev.full = s.full.reverse ∧ s.rev.rev = s := by
+  cases s; simp [Seg.rev]
+
+/-! ## the growing of one group ends for a genuine reason -/
+
+theorem findMatch_index (cur : List Seg) : ∀ segs i j cur', findMatch cur segs i = some (j, cur') →
+    i ≤ j ∧ j < i + segs.length := by
+  intro segs
+  induction segs with
+  | nil => intro i j cur' h; simp [findMatch] at h
+  | cons s rest ih =>
+    intro i j cur' h
+    unfold findMatch at h
+    simp only at h
+    split at h
+    · cases h; simp
+    · split at h
+      · cases h; simp
+      · split at h
+        · cases h; simp
+        · split at h
+          · cases h; simp
+          · have := ih (i + 1) j cur' h
+            simp; omega
+
+/-- **termination**: with the fuel `Join` gives it (the number of remaining segments) a group stops growing
+    only because it is closed, nothing is left, or no remaining segment touches either end — never for lack of fuel -/
+theorem grow_complete : ∀ f cur segs, segs.length ≤ f →
+    let r := grow f cur segs
+    r.2 = [] ∨ msFirst r.1 = msLast r.1 ∨ findMatch r.1 r.2 0 = none := by
+  intro f
+  induction f with
+  | zero =>
+    intro cur segs h
+    have : segs = [] := List.eq_nil_of_length_eq_zero (by omega)
+    subst this; simp [grow]
+  | succ f ih =>
+    intro cur segs h
+    unfold grow
+    split
+    · rename_i hc
+      rcases hc with hc | hc
+      · exact Or.inl hc
+      · exact Or.inr (Or.inl hc)
+    · split
+      · rename_i hm; exact Or.inr (Or.inr hm)
+      · rename_i i c1 hm
+        have hi := findMatch_index cur segs 0 i c1 hm
+        apply ih
+        rw [List.length_eraseIdx]
+        split <;> omega
+
+/-! ## holes -/
+
+/-- **each hole goes to the first outer that contains it**, the other polygons are untouched -/
+theorem hole_assigned (pre : List (List (List P))) (poly : List (List P)) (post : List (List (List P)))
+    (ring : List P) (inc : Bool)
+    (hpre : ∀ q ∈ pre, polygonContains (q.headD []) ring = false)
+    (hin : polygonContains (poly.headD []) ring = true) :
+    addToMultiPolygon (pre ++ poly :: post) ring inc = pre ++ (poly ++ [ring]) :: post := by
+  unfold addToMultiPolygon
+  have : addToMultiPolygon.place ring (pre ++ poly :: post) = some (pre ++ (poly ++ [ring]) :: post) := by
+    induction pre with
+    | nil => simp only [List.nil_append, addToMultiPolygon.place, hin, if_true]
+    | cons q qs ih =>
+      have hq := hpre q (by simp)
+      simp only [List.cons_append, addToMultiPolygon.place, hq, Bool.false_eq_true, if_false]
+      rw [ih (fun x hx => hpre x (by simp [hx]))]
+      rfl
+  rw [this]
+
+/-- a hole contained in no outer is dropped (unless invalid polygons are asked for): nothing is invented -/
+theorem hole_without_outer (mp : List (List (List P))) (ring : List P)
+    (h : ∀ q ∈ mp, polygonContains (q.headD []) ring = false) :
+    addToMultiPolygon mp ring false = mp := by
+  unfold addToMultiPolygon
+  have : addToMultiPolygon.place ring mp = none := by
+    induction mp with
+    | nil => rfl
+    | cons q qs ih =>
+      simp only [addToMultiPolygon.place, h q (by simp), Bool.false_eq_true, if_false]
+      rw [ih (fun x hx => h x (by simp [hx]))]
+      rfl
+  rw [this]; simp
+
+/-! ## coordinates: node objects or annotated way nodes -/
+
+def locate (d : Data) (wn : WayNode) : WayNode :=
+  match (d.nodes.filter (fun n => n.id = wn.id)).getLast? with
+  | some n => { wn with lon := n.lon, lat := n.lat }
+  | none => wn
+
+theorem foldl_located (d : Data) (ns : List WayNode)
+    (hnodes : ∀ wn ∈ ns, wn.lon = 0 ∧ wn.lat = 0 ∧
+      ∃ n, (d.nodes.filter (fun n => n.id = wn.id)).getLast? = some n ∧ (n.lon ≠ 0 ∨ n.lat ≠ 0)) :
+    ∀ acc, (ns.map (locate d)).foldl (wlStep { d with nodes := [] }) acc = ns.foldl (wlStep d) acc := by
+  induction ns with
+  | nil => intro acc; rfl
+  | cons wn rest ih =>
+    intro acc
+    obtain ⟨h1, h2, n, hn, hloc⟩ := hnodes wn (by simp)
+    simp only [List.map_cons, List.foldl_cons]
+    have : wlStep { d with nodes := [] } acc (locate d wn) = wlStep d acc wn := by
+      unfold wlStep locate
+      simp only [hn, h1, h2]
+      rcases hloc with h | h <;> simp [h]
+    rw [this]
+    exact ih (fun x hx => hnodes x (by simp [hx])) _
+
+/-- **the same geometry whether node locations come from separate node objects or from annotated way nodes**
+    (no vertex at lon = 0, lat = 0, which means "no location") -/
+theorem coords_source_independent (d : Data) (w : WayE)
+    (hnodes : ∀ wn ∈ w.nodes, wn.lon = 0 ∧ wn.lat = 0 ∧
+      ∃ n, (d.nodes.filter (fun n => n.id = wn.id)).getLast? = some n ∧ (n.lon ≠ 0 ∨ n.lat ≠ 0)) :
+    wayToLineString { d with nodes := [] } { w with nodes := w.nodes.map (locate d) } = wayToLineString d w := by
+  unfold wayToLineString
+  exact foldl_located d w.nodes hnodes _
+
+/-! ## winding -/
+
+def sgn (a : Int) : Int := if a > 0 then 1 else if a < 0 then -1 else 0
+
+theorem ringOrientation_eq_sgn (r : List P) : ringOrientation r = sgn (area2 r) := rfl
+
+theorem sgn_spec (a : Int) : (a > 0 ∧ sgn a = 1) ∨ (a < 0 ∧ sgn a = -1) ∨ (a = 0 ∧ sgn a = 0) := by
+  unfold sgn
+  by_cases h1 : a > 0
+  · exact Or.inl ⟨h1, by rw [if_pos h1]⟩
+  · by_cases h2 : a < 0
+    · exact Or.inr (Or.inl ⟨h2, by rw [if_neg h1, if_pos h2]⟩)
+    · exact Or.inr (Or.inr ⟨by omega, by rw [if_neg h1, if_neg h2]⟩)
+
+/-- **outers counter-clockwise, inners clockwise**: when the members carry no orientation annotation,
+    `Ring(o)` of a closed group with non-zero area has exactly the requested winding -/
+theorem ring_orientation (ms : List Seg) (o : Int) (ho : o = 1 ∨ o = -1)
+    (hno : ∀ s ∈ ms, s.orientation = 0)
+    (hne : lineOf ms ≠ []) (hclosed : (lineOf ms).head? = (lineOf ms).getLast?)
+    (harea : area2 (lineOf ms) ≠ 0) :
+    ringOrientation (ringOf ms o) = o := by
+  obtain ⟨p, t, hpt⟩ := List.exists_cons_of_ne_nil hne
+  have hcl : (p :: t).getLast? = some p := by rw [← hpt, ← hclosed, hpt]; rfl
+  have hany1 : ms.any (fun s => decide (s.orientation ≠ 0)) = false := by
+    rw [List.any_eq_false]; intro s hs; simp [hno s hs]
+  have hany2 : ms.any (fun s => decide (s.orientation ≠ 0 ∧ (decide (s.orientation = o) = s.reversed))) = false := by
+    rw [List.any_eq_false]; intro s hs; simp [hno s hs]
+  unfold ringOf
+  simp only [hany1, hany2, Bool.false_eq_true, false_and, not_false_eq_true, true_and, false_or]
+  by_cases hor : ringOrientation (lineOf ms) = o
+  · simp [hor]
+  · simp only [hor, ne_eq, not_false_eq_true, if_true]
+    have hrev := area2_reverse_closed p t hcl
+    rw [← hpt] at hrev
+    rw [ringOrientation_eq_sgn] at hor ⊢
+    rw [hrev]
+    have s1 := sgn_spec (area2 (lineOf ms))
+    have s2 := sgn_spec (- area2 (lineOf ms))
+    omega
+
+/-! ## orientation annotation -/
+
+/-- **annotation marks every way member with the direction in which that way runs around its ring**:
+    whichever winding was asked for, a member traversed in its own direction gets the winding of the
+    joined ring, a member that had to be turned around gets the opposite one -/
+theorem orientation_annotation (ms : List Seg) (o : Int) (ho : o = 1 ∨ o = -1) :
+    annotateOrientation ms o = ms.map (fun s => (s.idx, if s.reversed then - msOrientation ms else msOrientation ms)) := by
+  unfold annotateOrientation
+  have hm : msOrientation ms = 1 ∨ msOrientation ms = -1 := by
+    unfold msOrientation; split <;> simp
+  apply List.map_congr_left
+  intro s _
+  rcases ho with rfl | rfl <;> rcases hm with h | h <;> simp [h] <;> split <;> simp
+
+/-! ## non-vacuity: a square cut into three pieces (one reversed) and a two-piece triangle, shuffled -/
+def exSegs : List Seg := [
+  Seg.mk' 0 0 [(4,4),(0,4),(0,0)],
+  Seg.mk' 1 0 [(4,0),(0,0)],
+  Seg.mk' 2 0 [(1,1),(2,1)],
+  Seg.mk' 3 0 [(4,0),(4,4)],
+  Seg.mk' 4 0 [(1,1),(1,2),(2,1)]]
+example : (join exSegs).map lineOf = [[(1,1),(1,2),(2,1),(1,1)], [(4,0),(4,4),(0,4),(0,0),(4,0)]] := by decide
+example : FreshInput exSegs := by intro s hs; simp [exSegs] at hs; rcases hs with rfl | rfl | rfl | rfl | rfl <;> rfl
+
 end OsmVerif.Props.C16
